@@ -6,6 +6,9 @@ from .compare import close, impl_val
 from .model import run_model, crosscheck_in_coq, T
 
 
+SPEC_PROPS = {"C04", "C05", "C06", "C07", "C08"}
+
+
 def hist_corr(ctx, ents=None, mix=None, name="history-correspondence", nhist=None, nops=(4, 8, 14), maxn=8):
     """Random operation histories: Coq pool model vs real classes, observation by observation
     (state after every op, compute results).  One tie obligation per class."""
@@ -105,6 +108,12 @@ def fn_corr(ctx, ents=None, name="functional-correspondence", ncases=None, gen=N
     for e in ents:
         m = bad.get(e.name)
         ctx.oblige(f"tie:fn:{e.name}", m is None, detail=repr(core.canon(m))[:1500] if m else "")
+        if m is not None and ctx.prop in SPEC_PROPS:
+            # the model is proved equal to the definition (Props/), so an input on which the real
+            # function differs from the model is an input on which it differs from the definition
+            ctx.violation("failing-input", e.name, {"check": "fn_vs_model", "function": e.name, "cfg": m["cfg"], "batch": m["batch"],
+                                                   "observed": m["disagreement"], "broken": f"tie:fn:{e.name}"},
+                          finding_id=core.match_finding(ctx.prop, e.name, str(m["disagreement"])))
         if getattr(e, "spec_model", None):
             m = bad.get("spec:" + e.name)
             ctx.oblige(f"model:algo=spec:{e.name}", m is None, detail=repr(core.canon(m))[:1500] if m else "")
